@@ -151,6 +151,8 @@ var c05ActionNames = []string{"echo", "compute", "fetchAll", "store", "ping", "t
 var c05ItfNames = []string{"Svc", "Engine", "Store2", "worker", "Remote_ctl"}
 var c05PkgNames = []string{"gen", "svc2", "pkg_a", "robot"}
 
+var c05Generated int // packages drawn in this run
+
 func c05GenPkg(r *Rand) *c05Pkg {
 	p := &c05Pkg{name: c05PkgNames[r.Intn(len(c05PkgNames))]}
 	ns := r.Intn(4)
@@ -243,6 +245,15 @@ func c05GenPkg(r *Rand) *c05Pkg {
 			}
 		}
 		p.itfs = append(p.itfs, itf)
+	}
+	c05Generated++
+	if c05Generated == 1 || (!small && r.Chance(30)) {
+		// properties whose value has a list (a map) of elements of a fixed size followed by another member: the values
+		// the harness draws for them hold a few thousand elements (c05Lengthen)
+		p.itfs = append(p.itfs, c05Itf{name: "RangeFinder", actions: []c05Action{
+			{kind: "prop", name: "lastScan", params: []c05Param{{"ranges", parseSigT("[f]")}, {"seq", parseSigT("i")}}},
+			{kind: "prop", name: "histogram", params: []c05Param{{"bins", parseSigT("[I]")}, {"label", parseSigT("s")}}},
+		}})
 	}
 	return p
 }
@@ -1101,6 +1112,9 @@ func runC05(r *Rand, tier string, o *Out) {
 				pt := c05Tuple(pts)
 				for k := 0; k < nval; k++ {
 					pv := genTVal(r, pt, 2)
+					if a.kind == "prop" && k == 0 && c05Lengthen(r, pt, pv, 1) {
+						o.Count("value:a-list-of-thousands-of-fixed-size-elements")
+					}
 					switch a.kind {
 					case "fn":
 						retH, retToks := "-", ""
@@ -1210,4 +1224,37 @@ func c05FailClass(res string) string {
 		return res[:60]
 	}
 	return res
+}
+
+// c05Lengthen: the first list of elements of a fixed size found in the value gets between a thousand and four thousand
+// elements (more than 4096 bytes, not a multiple of it)
+func c05Lengthen(r *Rand, t *sigT, v *tval, budget int) bool {
+	if t == nil || v == nil {
+		return false
+	}
+	switch t.kind {
+	case '[':
+		if len(t.elems) == 1 && strings.ContainsRune("bcCwWiIlLfd", rune(t.elems[0].kind)) && v.kind == '[' {
+			n := []int{1025, 1500, 2600, 4000}[r.Intn(4)]
+			v.elems = v.elems[:0]
+			for i := 0; i < n; i++ {
+				v.elems = append(v.elems, genTVal(r, t.elems[0], 0))
+			}
+			return true
+		}
+		for _, e := range v.elems {
+			if c05Lengthen(r, t.elems[0], e, budget) {
+				return true
+			}
+		}
+	case '(', 'S':
+		if len(t.elems) == len(v.elems) {
+			for i := range t.elems {
+				if c05Lengthen(r, t.elems[i], v.elems[i], budget) {
+					return true
+				}
+			}
+		}
+	}
+	return false
 }
